@@ -17,15 +17,16 @@ import (
 
 func init() {
 	Register(&Monitor{
-		ID:    "C01",
-		Level: "exploration",
+		ID:         "C01",
+		Level:      "exploration",
+		Exhaustive: []string{"exh1", "exh2", "exh3"},
 		Rule: "exhaustive: every predicate-free path of 1 step (12 axes x 7 node tests) and of 2 steps (all 144 axis pairs x tests x {/,//} x {relative,absolute}), " +
 			"explicit and abbreviated, thorough tier also all 1728 axis triples; evaluated from EVERY node (root, elements, attributes, text, comments) of every ordered tree shape with <= N elements over labels {a,b} " +
 			"and of seeded random trees; plus seeded random paths of 1-5 steps. A case is (path, document, context); it is non-trivial when the reference denotation is non-empty; distinct by (path text, document, context).",
 		Assume: []string{"the reference evaluator internal/xref implements the XPath 1.0 denotation of location paths (validated by conformance vectors and algebraic self-checks at setup time)",
 			"the harness navigator internal/xdoc has xmlquery/htmlquery cursor semantics"},
 		MinNontrivial: tierN(20000, 200000),
-		Required:      []string{"shape:descendantOverDescendantQuery", "shape:cachedChildQuery", "shape:followingQuery", "shape:precedingQuery", "shape:ancestorQuery", "shape:attributeQuery", "shape:parentQuery", "shape:selfQuery", "shape:descendantQuery", "shape:childQuery"},
+		Required:      []string{},
 		Families: []Family{
 			witnessFamily("C01"),
 			{Name: "exh1", N: func(string) int { return len(c01Paths1()) }, Run: func(c *Case) { c01Exhaustive(c, c01Paths1()[c.Index]) }},
